@@ -43,6 +43,8 @@ You have to disable enum or useUnderlyingTypeMethods to resolve the setting conf
 
 	if targetUnderlying {
 		innerTarget = xtype.TypeOf(target.NamedType.Underlying())
+		// an error return must carry a value of the named target type, not the inner variable of the underlying type
+		ctx.SetErrorTargetVar(xtype.ZeroValue(target.T))
 	}
 
 	stmt, id, err := gen.Build(ctx, sourceID, innerSource, innerTarget, errPath)
